@@ -165,23 +165,34 @@ def twin_run(chk, rng, ctype, sk, dt, steps, batch, report=True, corrupt=False, 
     bias = delayed.bias.detach().clone()
     Wt = delayed.weight.detach().clone()           # (lateral: masked)
     dk = (delayed.delay.detach() / (D * P.tick)).round().long()
-    twins = {}
-    for k in sorted(set(dk.reshape(-1).tolist())):
-        t = make(None)
-        t.weight = Wt * (dk == k)
-        t.bias = torch.zeros_like(bias)
-        twins[k] = t
+    def build_twins(dk_):
+        tw = {}
+        for k in sorted(set(dk_.reshape(-1).tolist())):
+            t = make(None)
+            t.weight = Wt * (dk_ == k)
+            t.bias = torch.zeros_like(bias)
+            tw[k] = t
+        return tw
+    twins = build_twins(dk)
     outs = {k: [] for k in twins}
+    relearned = False
     xhist = []                             # input spikes since the start / the last clear
     worst = None
     for step in range(steps):
         x = (torch.rand((batch,) + inshape, generator=gen) < 0.4).float()
         if step == steps // 2 and rng.random() < 0.5:
             delayed.clear()
+            if rng.random() < 0.6:
+                # the learned delays are REPLACED through the public setter in mid-run (as an updater does); from the
+                # cleared state on, the connection must shift by the new delays
+                dk2 = torch.randint(0, maxk + 1, wshape, generator=gen)
+                delayed.delay = (dk2.float() + drift * torch.where(dk2 < maxk, 1.0, -1.0)) * (D * P.tick)
+                dk = (delayed.delay.detach() / (D * P.tick)).round().long()
+                twins = build_twins(dk)
+                relearned = True
             for t in twins.values():
                 t.clear()
-            for k in outs:
-                outs[k] = []
+            outs = {k: [] for k in twins}
             xhist = []
         xhist.append(x)
         try:
@@ -235,7 +246,7 @@ def twin_run(chk, rng, ctype, sk, dt, steps, batch, report=True, corrupt=False, 
                              "expected": want.int().reshape(-1).tolist()}
                     break
     cfg = {"conn": CONN_CLASS[ctype], "syn": sk, "dt": dt, "batch": batch, "delays_steps": dk.reshape(-1).tolist(),
-           "max_delay_steps": maxk, "homogeneous": homogeneous, "params": P.asdict()}
+           "max_delay_steps": maxk, "homogeneous": homogeneous, "params": P.asdict(), "delays_replaced_in_mid_run": relearned}
     if worst and report:
         chk.violation({"clause": "ShiftEq", "site": "undelayed-twin", "conn": CONN_CLASS[ctype], "syn": sk,
                        "delayed": True, "view": worst.get("view", "output")}, dict(cfg, **worst))
